@@ -136,7 +136,10 @@ def r_order(ck: Checker) -> None:
                         context = f".{fname}(...)"
                         break
                     if fname in STORING:
-                        context = None  # the set object itself is stored, not iterated
+                        if cur is node:
+                            context = None  # the set object itself is stored, not iterated
+                        else:
+                            context = f"{context} stored by .{fname}()"  # an element picked in iteration order is stored
                         break
                     callee = ck.prg.resolve_callee(func, up.func) if not (isinstance(up.func, ast.Name) and up.func.id in _assigned_names(func) and not ck.prg.resolve_callee(func, up.func)) else None
                     tgt = ck.prg.funcs.get(callee or "") or ck.prg.funcs.get(f"{callee}.__init__")
